@@ -35,6 +35,8 @@ CHECKS = {
          "Seeded sequences over the full command set incl. made-up commands, classic and extended framing, payloads up to several MB, every block/tx state; a pong must follow each sequence.", "3/C14"),
  "C15": ("exploration", "runtime monitoring with process supervision: hostile byte streams against real BitcoinNodes inside journalled, memory-budgeted worker processes; liveness of the worker, of a canary connection and of Run; second pass under the race detector",
          "Each case delivers one generated hostile input (random, mutated valid messages, hostile declared lengths and counts, extended headers up to 2^64-1, every bits exponent, handshake floods) at one of three session stages; a dead worker is attributed to the journalled case and re-run alone.", "3/C15"),
+ "C16": ("exploration", "runtime monitoring: seeded schedules of handler / Cancel / Stop / interrupt against the real BlockDownloader and BlockManager with scheduling perturbations inside the critical windows; terminal-signal counting, goroutine-state classification on watchdog expiry; race detector",
+         "Tens of thousands of level-1 schedules (distinct observed event orders reported) and thousands of level-2 manager scenarios with failing sources, aborts and shutdown; exactly-one-terminal-signal, completion-implies-success, downloader list empties, concurrency bound.", "3/C16"),
  "C17": ("exploration", "runtime monitoring: reference model with invalid marks vs repository after every mark/unmark/submit/Save/Load",
          "Marks on best chain at several depths, side branches, unseen and unknown hashes, repeated marks, unmark+resubmit, reload.", "3/C17"),
  "C18": ("fault_enumeration", "fault injection: every single-element corruption of each valid merkle proof (built by a reference implementation) must be rejected; valid proofs must report the model's height and best-chain flag",
